@@ -299,7 +299,7 @@ static Bytes payload_alphabet(Codec k)
 }
 
 // (1) all payloads of length <= L over the 9-symbol alphabet; case = (codec, first two symbols)
-static int small_maxlen() { return vf::thorough() ? 6 : 4; }
+static int small_maxlen() { return vf::thorough() ? 6 : 5; }
 static uint64_t small_count() { return NCODEC * 82; }
 static void small_run(uint64_t idx)
 {
@@ -340,7 +340,7 @@ static void small_run(uint64_t idx)
 VF_SUITE(small, small_count, small_run)
 
 // (2) payloads whose CRC-8 is itself a marker or an escape code: random prefix + solved suffix
-static uint64_t crcmark_count() { return NCODEC * (vf::thorough() ? 400 : 24); }
+static uint64_t crcmark_count() { return NCODEC * (vf::thorough() ? 400 : 60); }
 static void crcmark_run(uint64_t idx)
 {
     Codec k = (Codec)(idx % NCODEC);
@@ -388,7 +388,7 @@ static void crcmark_run(uint64_t idx)
 VF_SUITE(crcmark, crcmark_count, crcmark_run)
 
 // (3) random payloads up to 300 bytes, marker-biased, random partitions with empty pieces
-static uint64_t rand_count() { return vf::thorough() ? 60000 : 1500; }
+static uint64_t rand_count() { return vf::thorough() ? 60000 : 4500; }
 static void rand_run(uint64_t idx)
 {
     vf::Rng r(vf::seed(), 0xC04A, idx);
@@ -416,7 +416,7 @@ static void rand_run(uint64_t idx)
 VF_SUITE(randpay, rand_count, rand_run)
 
 // (4) every iovec partition of payloads of length 5..8 (lengths <= 4/6 are covered by `small`)
-static uint64_t part_count() { return vf::thorough() ? 3000 : 90; }
+static uint64_t part_count() { return vf::thorough() ? 3000 : 400; }
 static void part_run(uint64_t idx)
 {
     vf::Rng r(vf::seed(), 0xC04B, idx);
